@@ -607,6 +607,8 @@ def agree(c, got, exp):
 def finding_key(c, got, exp):
     op = c["op"]
     if isinstance(got, dict) and "err" in got:
+        if op in ("jaccard", "forbes") and (not any(x["a"] for x in c["chroms"]) or not any(x["b"] for x in c["chroms"])):
+            return f"{op}:empty-operand-raises-{got['err'].split(':')[-1]}"
         return f"{op}:raises-{got['err'].split(':')[-1]}"
     if op == "sort":
         return f"sort:{c['path']}-path-not-ordered-by-chromosome-start-stop"
